@@ -16,8 +16,8 @@
 use std::sync::Mutex;
 
 use roto::{
-    Constant, FileTree, Function, Impl, Item, Library, Module, NoCtx, Registerable, Runtime, Type, Use, Val, Value,
-    library, location,
+    Constant, FileTree, Function, Impl, Item, Library, List, Module, NoCtx, Registerable, RotoString, Runtime, Type,
+    Use, Val, Value, Verdict, library, location,
 };
 use rvh::batch::{Progress, parse_args, run_batch};
 use serde_json::{Value as J, json};
@@ -130,7 +130,135 @@ fn expected_ret(tag: i32, nargs: usize) -> i32 {
     v
 }
 
+
+// ---------------------------------------------------------------- table types (codes >= 5)
+//
+// Types with a code >= 5 (u32, bool, String and the Option / List / Result / Verdict types over them
+// and Val<TA>, see spec/Registration.tla TyKind/TyArgs) are observed through their values:
+// canon(sel) is the canonical value number sel, code() its observation (Obs of the spec).
+include!("../tables/c18_sigs.rs");
+
+trait Cv: Value + Clone + Send + Sync + 'static {
+    /// weight of the outermost level: 1 for a leaf, 10 / 100 for a compound type
+    const W: i32;
+    /// component types (Self for a leaf)
+    type A: Cv;
+    type B: Cv;
+    fn canon(sel: i32) -> Self;
+    fn code(&self) -> i32;
+}
+macro_rules! cv_leaf {
+    ($t:ty, $canon:expr, $code:expr) => {
+        impl Cv for $t {
+            const W: i32 = 1;
+            type A = Self;
+            type B = Self;
+            fn canon(_sel: i32) -> Self {
+                $canon
+            }
+            fn code(&self) -> i32 {
+                let f: fn(&$t) -> i32 = $code;
+                f(self)
+            }
+        }
+    };
+}
+cv_leaf!(u32, 7, |x| *x as i32);
+cv_leaf!(bool, true, |x| if *x { 1 } else { 0 });
+cv_leaf!(RotoString, RotoString::from("abc"), |x| x.len() as i32);
+cv_leaf!(Val<TA>, Val(TA { tag: 5 }), |x| x.0.tag);
+const fn maxw(a: i32, b: i32) -> i32 {
+    if a > b { a } else { b }
+}
+impl<X: Cv> Cv for Option<X> {
+    const W: i32 = 10 * X::W;
+    type A = X;
+    type B = X;
+    fn canon(sel: i32) -> Self {
+        if sel % 2 == 0 { Some(X::canon(sel / 2)) } else { None }
+    }
+    fn code(&self) -> i32 {
+        match self {
+            Some(x) => Self::W + x.code(),
+            None => 2 * Self::W,
+        }
+    }
+}
+impl<X: Cv> Cv for List<X>
+where
+    X::Transformed: PartialEq,
+{
+    const W: i32 = 10 * X::W;
+    type A = X;
+    type B = X;
+    fn canon(sel: i32) -> Self {
+        if sel % 2 == 0 { List::from(vec![X::canon(sel / 2)]) } else { List::from(Vec::<X>::new()) }
+    }
+    fn code(&self) -> i32 {
+        match self.to_vec().first() {
+            Some(x) => Self::W + x.code(),
+            None => 2 * Self::W,
+        }
+    }
+}
+impl<X: Cv, Y: Cv> Cv for Result<X, Y> {
+    const W: i32 = 10 * maxw(X::W, Y::W);
+    type A = X;
+    type B = Y;
+    fn canon(sel: i32) -> Self {
+        if sel % 2 == 0 { Ok(X::canon(sel / 2)) } else { Err(Y::canon(sel / 2)) }
+    }
+    fn code(&self) -> i32 {
+        match self {
+            Ok(x) => Self::W + x.code(),
+            Err(y) => 2 * Self::W + y.code(),
+        }
+    }
+}
+impl<X: Cv, Y: Cv> Cv for Verdict<X, Y> {
+    const W: i32 = 10 * maxw(X::W, Y::W);
+    type A = X;
+    type B = Y;
+    fn canon(sel: i32) -> Self {
+        if sel % 2 == 0 { Verdict::Accept(X::canon(sel / 2)) } else { Verdict::Reject(Y::canon(sel / 2)) }
+    }
+    fn code(&self) -> i32 {
+        match self {
+            Verdict::Accept(x) => Self::W + x.code(),
+            Verdict::Reject(y) => 2 * Self::W + y.code(),
+        }
+    }
+}
+
+/// components of a type code
+fn ty_args(t: i64) -> (i64, Vec<i64>) {
+    if t < 100 {
+        return (0, vec![]);
+    }
+    let (k, a) = if t < 1000 { (t / 100, vec![(t / 10) % 10, t % 10]) } else { (t / 1_000_000, vec![(t / 1000) % 1000, t % 1000]) };
+    (k, if k <= 2 { a[..1].to_vec() } else { a })
+}
+
 type RegRes<T> = Result<T, roto::RegistrationError>;
+
+/// fn(i32) -> S: the canonical value number `sel`
+fn reg_ret<S: Cv>(name: &str) -> RegRes<Function> {
+    Function::new(name, "doc", vec!["sel"], move |sel: i32| -> S { S::canon(sel) }, location!())
+}
+/// fn(S) -> i32: tag * 1000 + observation of the argument
+fn reg_par<S: Cv>(name: &str, tag: i32) -> RegRes<Function> {
+    Function::new(name, "doc", vec!["x"], move |x: S| -> i32 { tag * 1000 + x.code() }, location!())
+}
+/// fn(Val<TA>, S) -> i32 (method of T)
+fn reg_meth<S: Cv>(name: &str, tag: i32) -> RegRes<Function> {
+    Function::new(name, "doc", vec!["a", "x"], move |_a: Val<TA>, x: S| -> i32 { tag * 1000 + x.code() }, location!())
+}
+fn reg_const<S: Cv>(name: &str) -> RegRes<Constant>
+where
+    S::Transformed: Send + Sync + 'static,
+{
+    Constant::new(name, "doc", S::canon(0), location!())
+}
 
 fn fn0<R: Tv>(name: &str, tag: i32) -> RegRes<Function> {
     Function::new(name, "doc", vec![], move || -> R { R::make(tag * 100) }, location!())
@@ -149,6 +277,15 @@ fn fn2<P0: Tv, P1: Tv, R: Tv>(name: &str, tag: i32) -> RegRes<Function> {
 }
 
 fn mk_function(name: &str, ps: &[i64], r: i64, tag: i32) -> RegRes<Function> {
+    if r >= 5 || ps.iter().any(|t| *t >= 5) {
+        // table types come in three fixed shapes
+        return match (ps, r) {
+            ([0], r) => with_sig!(r, S, reg_ret::<S>(name)),
+            ([t], 0) => with_sig!(*t, S, reg_par::<S>(name, tag)),
+            ([1, t], 0) => with_sig!(*t, S, reg_meth::<S>(name, tag)),
+            _ => panic!("harness: signature {ps:?} -> {r} with a table type is not one of the supported shapes"),
+        };
+    }
     match ps.len() {
         0 => with_ty!(r, R, fn0::<R>(name, tag)),
         1 => with_ty!(r, R, with_ty!(ps[0], P0, fn1::<P0, R>(name, tag))),
@@ -177,6 +314,9 @@ fn mk_type(name: &str, rust: i64, mov: &str) -> RegRes<Type> {
 }
 
 fn mk_const(name: &str, ty: i64, tag: i32) -> RegRes<Constant> {
+    if ty >= 5 {
+        return with_sig!(ty, S, reg_const::<S>(name));
+    }
     with_ty!(ty, T, Constant::new(name, "doc", <T as Tv>::make(tag * 100), location!()))
 }
 
@@ -346,6 +486,24 @@ impl Tys<'_> {
         if idx == 0 {
             return "i32".into();
         }
+        match idx {
+            5 => return "u32".into(),
+            6 => return "bool".into(),
+            7 => return "String".into(),
+            _ => {}
+        }
+        if idx >= 100 {
+            // the Roto type of the same structure, component order preserved
+            let (k, a) = ty_args(idx);
+            let a: Vec<String> = a.iter().map(|x| self.name(*x)).collect();
+            return match k {
+                1 => format!("Option[{}]", a[0]),
+                2 => format!("List[{}]", a[0]),
+                3 => format!("Result[{}, {}]", a[0], a[1]),
+                4 => format!("Verdict[{}, {}]", a[0], a[1]),
+                _ => panic!("harness: bad type code {idx}"),
+            };
+        }
         match self.0.get(idx.to_string()) {
             Some(p) => dotted(&strs(p)),
             None => format!("UNREGISTERED_{idx}"),
@@ -379,6 +537,44 @@ fn probe_source(fname: &str, p: &J, tys: &Tys) -> String {
         "type" => {
             format!("fn {fname}(a0: {path}) -> {path} {{ a0 }}\n")
         }
+        // take the result apart: one function per component, typed with the component the Roto type must have
+        "match" => {
+            let r = p["r"].as_i64().unwrap();
+            let (k, a) = ty_args(r);
+            let (va, vb) = match k {
+                1 => ("Some(v) => Option.Some(v), None => Option.None", String::new()),
+                3 => ("Ok(v) => Option.Some(v), Err(e) => Option.None", "Ok(v) => Option.None, Err(e) => Option.Some(e)".to_string()),
+                4 => ("Accept(v) => Option.Some(v), Reject(e) => Option.None", "Accept(v) => Option.None, Reject(e) => Option.Some(e)".to_string()),
+                _ => panic!("harness: match probe on type {r}"),
+            };
+            let mut src = format!("fn {fname}_a(sel: i32) -> Option[{}] {{ match {path}(sel) {{ {va} }} }}\n", tys.name(a[0]));
+            if k != 1 {
+                src.push_str(&format!("fn {fname}_b(sel: i32) -> Option[{}] {{ match {path}(sel) {{ {vb} }} }}\n", tys.name(a[1])));
+            }
+            src
+        }
+        // build the argument from its components with the constructors of the Roto type
+        "cons" => {
+            let t = ints(&p["ps"])[0];
+            let (k, a) = ty_args(t);
+            match k {
+                1 => format!(
+                    "fn {fname}(sel: i32, a: {}) -> i32 {{ if sel == 0 {{ {path}(Option.Some(a)) }} else {{ {path}(Option.None) }} }}\n",
+                    tys.name(a[0])
+                ),
+                3 => format!(
+                    "fn {fname}(sel: i32, a: {}, b: {}) -> i32 {{ if sel == 0 {{ {path}(Result.Ok(a)) }} else {{ {path}(Result.Err(b)) }} }}\n",
+                    tys.name(a[0]),
+                    tys.name(a[1])
+                ),
+                4 => format!(
+                    "fn {fname}(sel: i32, a: {}, b: {}) -> i32 {{ if sel == 0 {{ {path}(Verdict.Accept(a)) }} else {{ {path}(Verdict.Reject(b)) }} }}\n",
+                    tys.name(a[0]),
+                    tys.name(a[1])
+                ),
+                _ => panic!("harness: cons probe on type {t}"),
+            }
+        }
         // free-form body returning i32 (used for hand-written reproductions only)
         "raw" => format!("fn {fname}() -> i32 {{ {} }}\n", p["body"].as_str().unwrap()),
         k => panic!("harness: unknown probe kind {k}"),
@@ -398,8 +594,97 @@ fn call2<P0: Tv, P1: Tv, R: Tv>(pkg: &mut roto::Package<NoCtx>, f: &str) -> Resu
     Ok(f.call(P0::make(argval(0)), P1::make(argval(1))).get())
 }
 
+
+fn split_tagged(vs: &[i32]) -> J {
+    // tag * 1000 + observation, same tag for every selector
+    let tag = vs[0] / 1000;
+    if vs.iter().all(|v| v / 1000 == tag) {
+        json!({"st": "ok", "tag": tag, "obs": vs.iter().map(|v| v % 1000).collect::<Vec<i32>>()})
+    } else {
+        json!({"st": "ok", "tag": -2, "raw": vs})
+    }
+}
+fn sig_ret<S: Cv>(pkg: &mut roto::Package<NoCtx>, f: &str) -> Result<J, String> {
+    let f = pkg.get_function::<fn(i32) -> S>(f).map_err(|e| e.to_string())?;
+    let obs: Vec<i32> = (0..4).map(|sel| f.call(sel).code()).collect();
+    Ok(json!({"st": "ok", "tag": 0, "obs": obs}))
+}
+fn sig_par<S: Cv>(pkg: &mut roto::Package<NoCtx>, f: &str) -> Result<J, String> {
+    let f = pkg.get_function::<fn(S) -> i32>(f).map_err(|e| e.to_string())?;
+    let vs: Vec<i32> = (0..4).map(|sel| f.call(S::canon(sel))).collect();
+    Ok(split_tagged(&vs))
+}
+fn sig_meth<S: Cv>(pkg: &mut roto::Package<NoCtx>, f: &str) -> Result<J, String> {
+    let f = pkg.get_function::<fn(Val<TA>, S) -> i32>(f).map_err(|e| e.to_string())?;
+    let vs: Vec<i32> = (0..4).map(|sel| f.call(Val(TA { tag: 1 }), S::canon(sel))).collect();
+    Ok(split_tagged(&vs))
+}
+fn sig_const<S: Cv>(pkg: &mut roto::Package<NoCtx>, f: &str) -> Result<J, String> {
+    let f = pkg.get_function::<fn() -> S>(f).map_err(|e| e.to_string())?;
+    Ok(json!({"st": "ok", "tag": 0, "obs": [f.call().code()]}))
+}
+fn sig_match<S: Cv>(pkg: &mut roto::Package<NoCtx>, f: &str, two: bool) -> Result<J, String> {
+    let fa = pkg.get_function::<fn(i32) -> Option<S::A>>(&format!("{f}_a")).map_err(|e| e.to_string())?;
+    let mut obs = vec![];
+    if two {
+        let fb = pkg.get_function::<fn(i32) -> Option<S::B>>(&format!("{f}_b")).map_err(|e| e.to_string())?;
+        for sel in 0..4 {
+            obs.push(match (fa.call(sel), fb.call(sel)) {
+                (Some(a), None) => S::W + a.code(),
+                (None, Some(b)) => 2 * S::W + b.code(),
+                _ => -2,
+            });
+        }
+    } else {
+        for sel in 0..4 {
+            obs.push(match fa.call(sel) {
+                Some(a) => S::W + a.code(),
+                None => 2 * S::W,
+            });
+        }
+    }
+    Ok(json!({"st": "ok", "tag": 0, "obs": obs}))
+}
+fn sig_cons<S: Cv>(pkg: &mut roto::Package<NoCtx>, f: &str, two: bool) -> Result<J, String> {
+    let vs: Vec<i32> = if two {
+        let f = pkg.get_function::<fn(i32, S::A, S::B) -> i32>(f).map_err(|e| e.to_string())?;
+        (0..4).map(|sel| f.call(sel % 2, <S::A>::canon(sel / 2), <S::B>::canon(sel / 2))).collect()
+    } else {
+        let f = pkg.get_function::<fn(i32, S::A) -> i32>(f).map_err(|e| e.to_string())?;
+        (0..4).map(|sel| f.call(sel % 2, <S::A>::canon(sel / 2))).collect()
+    };
+    Ok(split_tagged(&vs))
+}
+
+/// Probes of items with a table type in their signature.
+fn call_sig_probe(pkg: &mut roto::Package<NoCtx>, fname: &str, p: &J) -> J {
+    let kind = p["kind"].as_str().unwrap();
+    let ps = ints(&p["ps"]);
+    let r = p["r"].as_i64().unwrap_or(0);
+    let got: Result<J, String> = match (kind, &ps[..], r) {
+        ("const", _, _) => with_sig!(p["ty"].as_i64().unwrap(), S, sig_const::<S>(pkg, fname)),
+        ("fn", [0], r) => with_sig!(r, S, sig_ret::<S>(pkg, fname)),
+        ("fn", [t], 0) => with_sig!(*t, S, sig_par::<S>(pkg, fname)),
+        ("fn" | "method", [1, t], 0) => with_sig!(*t, S, sig_meth::<S>(pkg, fname)),
+        ("match", [0], r) => with_sig!(r, S, sig_match::<S>(pkg, fname, ty_args(r).0 != 1)),
+        ("cons", [t], 0) => with_sig!(*t, S, sig_cons::<S>(pkg, fname, ty_args(*t).0 != 1)),
+        _ => panic!("harness: probe {p} with a table type is not one of the supported shapes"),
+    };
+    match got {
+        Ok(j) => j,
+        Err(e) => json!({"st": "sigmismatch", "msg": first_line(&e)}),
+    }
+}
+
+fn has_table_type(p: &J) -> bool {
+    ints(&p["ps"]).iter().any(|t| *t >= 5) || p["r"].as_i64().unwrap_or(0) >= 5 || (p["kind"] == "const" && p["ty"].as_i64().unwrap_or(0) >= 5)
+}
+
 /// Call probe function `fname` of a compiled package under the Rust signature the probe declares.
 fn call_probe(pkg: &mut roto::Package<NoCtx>, fname: &str, p: &J) -> J {
+    if has_table_type(p) {
+        return call_sig_probe(pkg, fname, p);
+    }
     let kind = p["kind"].as_str().unwrap();
     let (ps, r): (Vec<i64>, i64) = match kind {
         "fn" | "method" => (ints(&p["ps"]), p["r"].as_i64().unwrap()),
